@@ -143,14 +143,18 @@ pub fn scenario(seed: u64, index: u64) -> Result<Out, String> {
 	if splice_out { avail[splicer] -= 12_000; }
 	let lock = index % 4 != 3;
 	let n_before = rng.below(3) as usize; let n_during = 1 + rng.below(2) as usize;
-	let plan = format!("[seed {} #{}: capacity {} sat, {} sat pushed to node 1, node {} splices {} (left pending), up to {} HTLC(s) before / {} during the pending splice (first during: {} sat from node 0), splice {} before the revoked commitment confirms]",
-		seed, index, cap, push, splicer, if splice_out { "out 10000 sat" } else { "in 100000 sat" }, n_before, n_during, htlc_sat, if lock { "confirms and LOCKS" } else { "stays PENDING" });
+	// the aimed HTLC is routed BEFORE the splice in a fifth of the scenarios: renegotiated_funding then has an index to rewrite that DIFFERS
+	let aimed_before = index % 5 == 1;
+	let plan = format!("[seed {} #{}: capacity {} sat, {} sat pushed to node 1, node {} splices {} (left pending), up to {} HTLC(s) before / {} during the pending splice (the aimed one: {} sat from node 0, routed {} the splice negotiation), splice {} before the revoked commitment confirms]",
+		seed, index, cap, push, splicer, if splice_out { "out 10000 sat" } else { "in 100000 sat" }, n_before, n_during, htlc_sat, if aimed_before { "BEFORE" } else { "after" }, if lock { "confirms and LOCKS" } else { "stays PENDING" });
 	if std::env::var("C06_DEBUG").is_ok() { eprintln!("{}", plan); }
 	let (_, _, chan, funding_tx) = create_announced_chan_between_nodes_with_value(&nodes, 0, 1, cap, push * 1000);
 	let first_funding = funding_tx.compute_txid();
 	let mut it = Intern::default(); let mut rp = Replayer::new();
 	provide_utxo_reserves(&nodes, 2, Amount::ONE_BTC);
 	let mut pre = vec![];
+	let mut aimed_pay = None;
+	if aimed_before { let r = route_payment(&nodes[0], &[&nodes[1]], htlc_sat * 1000); aimed_pay = Some((0usize, r.0, r.1)); }
 	for _ in 0..n_before { let a = rng.below(2) as usize; let amt = rng.range(1_500, 5_000); if avail[a] < amt + 8_000 || inflight[a] + amt + 1_000 > cap / 4 { continue; } avail[a] -= amt; inflight[a] += amt; let r = route_payment(&nodes[a], &[&nodes[1 - a]], amt * 1000); pre.push((a, r.0, r.1)); }
 	rp.poll(&nodes[victim], chan, first_funding, None, &mut it)?;
 	// ---- the splice, left pending ------------------------------------------------------------------------------------------------
@@ -165,10 +169,12 @@ pub fn scenario(seed: u64, index: u64) -> Result<Out, String> {
 	// ---- HTLCs while it is pending ---------------------------------------------------------------------------------------------------
 	let mut during = vec![];
 	for k in 0..n_during {
-		let (a, amt) = if k == 0 { (0usize, htlc_sat) } else { (rng.below(2) as usize, rng.range(1_500, 6_000)) };
-		if k > 0 { if avail[a] < amt + 8_000 || inflight[a] + amt + 1_000 > cap / 4 { continue; } avail[a] -= amt; inflight[a] += amt; }
+		let aimed_now = k == 0 && !aimed_before;
+		let (a, amt) = if aimed_now { (0usize, htlc_sat) } else { (rng.below(2) as usize, rng.range(1_500, 6_000)) };
+		if !aimed_now { if avail[a] < amt + 8_000 || inflight[a] + amt + 1_000 > cap / 4 { continue; } avail[a] -= amt; inflight[a] += amt; }
 		if std::env::var("C06_DEBUG").is_ok() { eprintln!("during {}: node {} sends {} sat; usable {:?}", k, a, amt, nodes[a].node.list_usable_channels().iter().map(|c| (c.next_outbound_htlc_limit_msat, c.next_outbound_htlc_minimum_msat, c.outbound_capacity_msat)).collect::<Vec<_>>()); }
-		let r = route_payment(&nodes[a], &[&nodes[1 - a]], amt * 1000); during.push((a, r.0, r.1));
+		let r = route_payment(&nodes[a], &[&nodes[1 - a]], amt * 1000);
+		if aimed_now { aimed_pay = Some((a, r.0, r.1)); } else { during.push((a, r.0, r.1)); }
 	}
 	{	// the data of BOTH scopes while the splice is pending
 		rp.poll(&nodes[victim], chan, first_funding, Some(splice_funding), &mut it)?;
@@ -183,7 +189,7 @@ pub fn scenario(seed: u64, index: u64) -> Result<Out, String> {
 		rp.poll(&nodes[victim], chan, first_funding, Some(splice_funding), &mut it)?;
 	}
 	// ---- the cheater's commitment (on the locked funding: the splice if it locked, the original one otherwise) -----------------------
-	let preimages: Vec<_> = pre.iter().chain(during.iter()).map(|(_, p, h)| (*h, *p)).collect();
+	let preimages: Vec<_> = pre.iter().chain(during.iter()).chain(aimed_pay.iter()).map(|(_, p, h)| (*h, *p)).collect();
 	let (revoked_tx, htlc_outs): (Transaction, BTreeSet<u32>) = {
 		let mon = nodes[cheater].chain_monitor.chain_monitor.get_monitor(chan).map_err(|_| "no cheater monitor")?;
 		let txs = mon.unsafe_get_latest_holder_commitment_txn(&nodes[cheater].logger);
@@ -195,7 +201,7 @@ pub fn scenario(seed: u64, index: u64) -> Result<Out, String> {
 	let spent_funding = revoked_tx.input[0].previous_output.txid;
 	if spent_funding != if lock { splice_funding } else { first_funding } { return Err("captured commitment spends an unexpected funding".into()); }
 	// ---- revoke it: settle the aimed HTLC ---------------------------------------------------------------------------------------------
-	let (a, p, _) = during.remove(0);
+	let (a, p, _) = aimed_pay.ok_or("no aimed HTLC")?;
 	claim_payment(&nodes[a], &[&nodes[1 - a]], p);
 	// ---- model: all updates, the final data, the claims on the confirmed commitment ---------------------------------------------------
 	rp.poll(&nodes[victim], chan, first_funding, Some(splice_funding), &mut it)?;
